@@ -48,6 +48,15 @@ pub enum Event {
         current_entries: usize,
         current_states: u64,
     },
+    /// the same unclaimed iterations split by cause: their stream value was replayed in this run but
+    /// not iterated ("unvisited"), or it has no position in the new trace at all ("unmapped")
+    FoldUnclaimedLoreByCause {
+        fold_id: u32,
+        unvisited_entries: usize,
+        unvisited_states: u64,
+        unmapped_entries: usize,
+        unmapped_states: u64,
+    },
 }
 
 thread_local! {
